@@ -5,6 +5,7 @@ From Verif Require Import Lib.Str Bind.Literal Bind.Model Bind.Proofs.
 From Verif Require gen.Bind_math_gen gen.Bind_00_gen gen.Bind_01_gen gen.Bind_02_gen gen.Bind_03_gen gen.Bind_04_gen gen.Bind_05_gen gen.Bind_06_gen gen.Bind_07_gen gen.Bind_08_gen gen.Bind_09_gen gen.Bind_10_gen gen.Bind_11_gen gen.Bind_12_gen gen.Bind_13_gen gen.Bind_14_gen gen.Bind_15_gen.
 From Verif Require Bind.ShardMath Bind.Shard00 Bind.Shard01 Bind.Shard02 Bind.Shard03 Bind.Shard04 Bind.Shard05 Bind.Shard06 Bind.Shard07 Bind.Shard08 Bind.Shard09 Bind.Shard10 Bind.Shard11 Bind.Shard12 Bind.Shard13 Bind.Shard14 Bind.Shard15.
 
+From Verif Require gen.BindW_gen.
 From Verif Require gen.BindXDrift_gen gen.BindX_00_gen gen.BindX_01_gen gen.BindX_02_gen gen.BindX_03_gen gen.BindX_04_gen gen.BindX_05_gen gen.BindX_06_gen gen.BindX_07_gen gen.BindX_08_gen gen.BindX_09_gen gen.BindX_10_gen gen.BindX_11_gen gen.BindX_12_gen gen.BindX_13_gen gen.BindX_14_gen gen.BindX_15_gen.
 From Verif Require Bind.ShardX00 Bind.ShardX01 Bind.ShardX02 Bind.ShardX03 Bind.ShardX04 Bind.ShardX05 Bind.ShardX06 Bind.ShardX07 Bind.ShardX08 Bind.ShardX09 Bind.ShardX10 Bind.ShardX11 Bind.ShardX12 Bind.ShardX13 Bind.ShardX14 Bind.ShardX15.
 
@@ -258,4 +259,43 @@ Lemma statement_all_refuted :
        /\ complete g = true /\ forwards g = true).
 Proof.
   intros S. apply statement_refuted. intros g Hg. apply S. apply in_or_app. now left.
+Qed.
+
+(* ------------------------------------------------------------------ *)
+(** * Word-size dependent constants: the platform-INDEPENDENT files of the compiled release against
+      the go/types truth of a 32-bit platform (linux/386).  coq/gen/BindW_gen.v holds exactly the
+      untyped constants whose value there differs from the host truth, with their rows. *)
+
+Definition wordsize_groups : list group := BindW_gen.groups.
+
+Definition ws_all_differ : bool :=
+  forallb (fun g => forallb (fun f => forallb (fun r => negb (row_region g r) && negb (row_ok const_g g f r))
+                                              (f_rows f)) (g_files g)) wordsize_groups.
+
+Lemma wordsize_all_differ : forall g f r, In g wordsize_groups -> In f (g_files g) -> In r (f_rows f) ->
+  row_region g r = false /\ row_ok const_g g f r = false.
+Proof.
+  assert (H : ws_all_differ = true) by (vm_compute; reflexivity).
+  unfold ws_all_differ in H. intros g f r Hg Hf Hr.
+  rewrite forallb_forall in H. specialize (H g Hg). rewrite forallb_forall in H. specialize (H f Hf).
+  rewrite forallb_forall in H. specialize (H r Hr). apply andb_true_iff in H. destruct H as [A B].
+  apply negb_true_iff in A. apply negb_true_iff in B. now split.
+Qed.
+
+Definition ws_first : option (group * file * row) :=
+  match flat_map (fun g => flat_map (fun f => map (fun r => (g, f, r)) (f_rows f)) (g_files g)) wordsize_groups with
+  | x :: _ => Some x | [] => None end.
+
+Lemma wordsize_refuted : exists g f r, In g wordsize_groups /\ In f (g_files g) /\ In r (f_rows f)
+  /\ row_region g r = false /\ row_ok const_g g f r = false.
+Proof.
+  destruct ws_first as [[[g f] r]|] eqn:E; [|vm_compute in E; discriminate].
+  unfold ws_first in E.
+  match type of E with match ?c with _ => _ end = _ => destruct c as [|x l] eqn:C; [discriminate|] end.
+  injection E as ->.
+  assert (Hin : In (g, f, r) ((g, f, r) :: l)) by now left. rewrite <- C in Hin. clear C.
+  apply in_flat_map in Hin. destruct Hin as (g' & Hg & Hin).
+  apply in_flat_map in Hin. destruct Hin as (f' & Hf & Hin).
+  apply in_map_iff in Hin. destruct Hin as (r' & Heq & Hr). injection Heq as -> -> ->.
+  exists g, f, r. repeat split; try assumption; now apply (wordsize_all_differ g f r).
 Qed.
